@@ -272,7 +272,7 @@ end FastOps
 
 /-! ### the propagated state: `subAt` is the `p = 0` state pushed through the slots before `p` -/
 
-theorem writeVars_length (st : List Bool) (vars : List Nat) (vals : List Bool) :
+theorem hintWV_length (st : List Bool) (vars : List Nat) (vals : List Bool) :
     (writeVars st vars vals).length = st.length := by
   unfold writeVars
   generalize vars.zip vals = l
@@ -280,11 +280,11 @@ theorem writeVars_length (st : List Bool) (vars : List Nat) (vals : List Bool) :
   | nil => rfl
   | cons x t ih => simp only [List.foldl_cons]; rw [ih]; simp
 
-theorem writeVars_cons (st : List Bool) (a : Nat) (t : List Nat) (b : Bool) (u : List Bool) :
+theorem hintWV_cons (st : List Bool) (a : Nat) (t : List Nat) (b : Bool) (u : List Bool) :
     writeVars st (a :: t) (b :: u) = writeVars (st.set a b) t u := rfl
 
 /-- reading after `writeVars`: the value written for `v` (at its relative index) or the old one -/
-theorem writeVars_get (vars : List Nat) : ∀ (st vals : List Bool) (v : Nat), vars.Nodup →
+theorem hintWV_get (vars : List Nat) : ∀ (st vals : List Bool) (v : Nat), vars.Nodup →
     vals.length = vars.length → v < st.length →
     (writeVars st vars vals)[v]? = if v ∈ vars then vals[vars.idxOf v]? else st[v]? := by
   induction vars with
@@ -294,7 +294,7 @@ theorem writeVars_get (vars : List Nat) : ∀ (st vals : List Bool) (v : Nat), v
     cases vals with
     | nil => simp at hl
     | cons b u =>
-      rw [writeVars_cons]
+      rw [hintWV_cons]
       have hn' := List.nodup_cons.mp hn
       rw [ih (st.set a b) u v hn'.2 (by simpa using hl) (by simpa using hv)]
       by_cases hva : v = a
@@ -324,7 +324,7 @@ theorem pushOps_length (st : List Bool) (l : Slots) : (pushOps st l).length = st
   | cons x t ih =>
     cases x with
     | none => exact ih st
-    | some o => simp only [pushOps]; rw [ih, writeVars_length]
+    | some o => simp only [pushOps]; rw [ih, hintWV_length]
 
 /-- **`subAt` is a propagation**: the value at `v` after pushing the `p = 0` state through every op
 strictly before `p` (outputs written in slot order) -/
@@ -356,7 +356,7 @@ theorem subAt_eq_pushOps (nv : Nat) (nb : Option Nat) (s : Slots) (hwf : WF nv n
         have hsl : slotAt s p = some op := by simp [slotAt, List.getElem?_eq_getElem hpL, hsp]
         obtain ⟨_, hnd, _, _⟩ := hwf p op hsl
         simp only [pushOps]
-        rw [writeVars_get op.vars _ _ v hnd (hio p op hsl).2 (by rw [pushOps_length]; exact hv)]
+        rw [hintWV_get op.vars _ _ v hnd (hio p op hsl).2 (by rw [pushOps_length]; exact hv)]
         by_cases hm : v ∈ op.vars
         · have hocc : occVAt s v p = true := occV_of_mem hsl hm
           simp only [hm, if_true]
